@@ -222,13 +222,13 @@ type vssBackend interface {
 	// newSession creates another honest dealer with the same keys (an older session, for replays).
 	newSession() (vssBackend, error)
 	hlog() *big.Int
-	plain(i int) *mdeal              // the honest dealer's plaintext deal for i with its model view
-	secret() *big.Int                // the honest dealer's secret
+	plain(i int) *mdeal // the honest dealer's plaintext deal for i with its model view
+	secret() *big.Int   // the honest dealer's secret
 	dealerSID() []byte
 	// contentSID: the session identifier the deal's content yields (dealer key, verifier keys, commitments, t),
 	// computed as share/vss/*: sessionID does
 	contentSID(d *mdeal) []byte
-	encHonest(i int) (any, error)    // real EncryptedDeal(i)
+	encHonest(i int) (any, error)        // real EncryptedDeal(i)
 	encFor(i int, d *mdeal) (any, error) // hook: arbitrary deal through the real encryption path
 	encRaw(i int, pt []byte) (any, error)
 	marshalDeal(d *mdeal) ([]byte, error)
